@@ -393,7 +393,7 @@ pub fn execute(plan: &C17Plan) -> (Option<C17Violation>, C17Stats) {
         }
     }
     // ---- T: the real convert_kytea_model binary under the syscall interposer ------------------
-    if let (Some(io_seed), Ok(tool), true) = (plan.tool_io_seed, std::env::var("VERIF_CONVERT"), want_sc("T") && l <= 200_000) {
+    if let (Some(io_seed), Ok(tool), true) = (plan.tool_io_seed, std::env::var("VERIF_CONVERT"), want_sc("T") && l <= 8_000_000) {
         let shim = std::env::var("VERIF_SHIM").unwrap_or_default();
         let dir = std::path::PathBuf::from(std::env::var("VERIF_SCRATCH").unwrap_or_else(|_| "/tmp".into())).join(format!("c17-{}", std::process::id()));
         let _ = std::fs::create_dir_all(&dir);
@@ -440,7 +440,8 @@ pub fn execute(plan: &C17Plan) -> (Option<C17Violation>, C17Stats) {
                 let _ = out;
             }
         }
-        for (ti, fr) in plan.tool_truncations.iter().enumerate() {
+        // (multi-megabyte files: the complete conversion only)
+        for (ti, fr) in plan.tool_truncations.iter().enumerate().take(if l > 200_000 { 1 } else { 3 }) {
             let p = if ti == 0 { consumed - 1 } else { usize::from(*fr) * consumed / 65536 };
             st.attempts += 1;
             st.faulted_attempts += 1;
